@@ -36,6 +36,7 @@ from dask_expr._expr import (
     Expr,
     Filter,
     PartitionsFiltered,
+    PinnedPartitioning,
     Projection,
     ToSeriesIndex,
     determine_column_projection,
@@ -1253,11 +1254,16 @@ class SortValuesBlockwise(Blockwise):
         return self.frame._meta
 
 
-class SetIndexBlockwise(Blockwise):
+class SetIndexBlockwise(PinnedPartitioning, Blockwise):
     _parameters = ["frame", "other", "drop", "new_divisions", "append"]
     _defaults = {"append": False, "new_divisions": None, "drop": True}
     _keyword_only = ["drop", "new_divisions", "append"]
     _is_length_preserving = True
+
+    @property
+    def _pins_partitioning(self):
+        # the given divisions belong to the current partitions of the frame
+        return self.new_divisions is not None
 
     @staticmethod
     def operation(df, *args, new_divisions, **kwargs):
